@@ -56,7 +56,20 @@ func runMatcherProperty(t *testing.T, prop string) {
 				cases = append(cases, &mc)
 			}
 		}
+		// option lattice: every option string of length 4 over the alphabet in the thorough tier (one
+		// variant per seed), random strings in the quick tier
+		for vi, v := range allVariants {
+			exhaustive := env.Thorough() && vi == int(env.Seed%uint64(len(allVariants)))
+			mc := genOptionLatticeCase(t, rng, genCfg(rng, v), env.Scale(60, 600), exhaustive)
+			runMatcherCase(t, &mc)
+			cases = append(cases, &mc)
+		}
 	case "C09":
+		for _, v := range allVariants {
+			mc := genOptionLatticeCase(t, rng, genCfg(rng, v), env.Scale(40, 400), false)
+			runMatcherCase(t, &mc)
+			cases = append(cases, &mc)
+		}
 		for _, v := range allVariants {
 			for i := 0; i < env.Scale(2, 12); i++ {
 				mc := genTruncationCase(t, rng, genCfg(rng, v))
